@@ -84,6 +84,11 @@ ALLOWED_SUBST = {
     "drop_contracts_ensures": (r"(?m)^\s*#\[ensures\([^\n]*\)\]\n", "",
                                "`#[contracts::ensures(..)]` run-time postcondition attributes dropped (debug-build assertions of the "
                                "`contracts` crate; the same facts are part of the Verus contract)"),
+    "vec_extend_vec": (r"(\w+)\.extend\((\w+)\);", r"vec_extend(&mut \1, \2);",
+                       "`a.extend(b)` with b: Vec<T> -> mirrored `vec_extend(&mut a, b)` (assumed std meaning: a := a ++ b)"),
+    "sort_unstable_by_key_m": (r"(\w+)\.sort_unstable_by_key\(", r"sort_unstable_by_key_m(&mut \1, ",
+                               "`v.sort_unstable_by_key(f)` -> mirrored `sort_unstable_by_key_m(&mut v, f)` (assumed std meaning: a "
+                               "permutation of v, non-decreasing in the key; the key closure is unchanged)"),
     "phantom_fn": (r"PhantomData<fn\(\) -> (\w+)>", r"PhantomData<\1>",
                    "`PhantomData<fn() -> P>` -> `PhantomData<P>` (variance marker only; Verus has no fn-pointer types)"),
     "temp_guard_rotate": (r"(?m)^(\s*)state\.populations_mut\(\)\.rotate\(self\.n\);", r"\1let mut verif_tmp = state.populations_mut(); verif_tmp.rotate(self.n);",
